@@ -8,7 +8,8 @@ over the resolved call graph.  Purely syntactic: nothing is executed.
 import ast
 import builtins
 from .model import AnalysisError, norm
-from .callgraph import ClsVal, ExtVal
+from .callgraph import ClsVal, ExtVal, Inst
+from .normalize import InlineBlock, InlineJump
 from .cfg import walk_no_nested
 
 # external exception classes the repo mentions -> builtin parent
@@ -103,6 +104,8 @@ class ExcAnalysis:
         for v in vals:
             if isinstance(v, ClsVal):
                 out.append(v.cls.name)
+            elif isinstance(v, Inst):
+                out.append(v.cls.name)      # `raise x` with x an instance built earlier
             elif isinstance(v, ExtVal):
                 nm = v.dotted.split(".")[-1]
                 out.append(nm)
@@ -233,6 +236,11 @@ class ExcAnalysis:
             for it in st.items:
                 self._merge(out, self._expr(it.context_expr, fn, sc, bound))
             self._merge(out, self._block(st.body, fn, sc, bound))
+            return out
+        if isinstance(st, InlineBlock):
+            self._merge(out, self._block(st.prologue + st.body + st.epilogue, fn, sc, bound))
+            return out
+        if isinstance(st, InlineJump):
             return out
         if isinstance(st, ast.Assert):
             self._merge(out, self._expr(st.test, fn, sc, bound))
